@@ -85,22 +85,47 @@ static Result run_format(int shape, const Values &v, const char *fmt, int mode)
     return r;
 }
 
-// digit runs that would mean hundreds of kilobytes to gigabytes of padding are a
-// resource question, not a parser one (stated bound): skip formats containing them
+// Widths / precisions that mean hundreds of kilobytes to gigabytes of output are a resource question, not a
+// parser one (stated bound, DESIGN 6.8): such format strings are skipped.  Which number is a width or precision is
+// decided by the *documented* grammar (literal text with {{ }} escapes; inside a field: '_' takes the next character
+// as pad, a digit 1-9 starts the width, '.' and '&' are followed by a strtol number), never by what the library under
+// test does with it - so a library that takes some other number for the width still runs, and is caught by the
+// watchdog / allocation cap.  The narrowing to int is part of that grammar (a 10-digit width wraps).
 static bool resource_heavy(const S &f)
 {
-    for (size_t i = 0; i < f.size();) {
-        if (f[i] >= '0' && f[i] <= '9') {
-            size_t j = i;
-            while (j < f.size() && f[j] >= '0' && f[j] <= '9') ++j;
-            long v = strtol(f.substr(i, j - i).c_str(), nullptr, 10);
-            if (static_cast<int>(v) > 200000) return true;
-            // after '.' or '&' strtol also takes a sign: "-2147483649" narrows to INT_MAX
-            if (i > 0 && f[i - 1] == '-' && static_cast<int>(-v) > 200000) return true;
-            i = j;
-        } else ++i;
+    const char *p = f.c_str();
+    const long LIMIT = 200000;
+    for (;;) {
+        // literal text up to the next field
+        while (*p) {
+            if (*p == '{') { if (p[1] == '{') { p += 2; continue; } break; }
+            ++p;
+        }
+        if (!*p) return false;
+        // a field
+        for (++p;; ++p) {
+            const char c = *p;
+            if (c == 0) return false;                    // unterminated: bad_format
+            if (c == '}') { ++p; break; }
+            if (c == '_') { if (!p[1]) return false; ++p; continue; }
+            if (c >= '1' && c <= '9') {
+                char *end = nullptr;
+                const int w = static_cast<int>(strtol(p, &end, 10));
+                if (w > LIMIT) return true;
+                p = end - 1;
+                continue;
+            }
+            if (c == '.' || c == '&') {
+                if (!p[1]) return false;
+                char *end = nullptr;
+                const int v = static_cast<int>(strtol(p + 1, &end, 10));
+                if (c == '.' && v > LIMIT) return true;
+                p = end - 1;
+                continue;
+            }
+            if (!strchr("<>0#xX+dobcfeE", c)) return false;   // bad_format: nothing after this is formatted
+        }
     }
-    return false;
 }
 
 static void format_case(const S &fmt, int shape, const Values &v, bool bounded = true)
